@@ -205,7 +205,7 @@ func drawGenerated(t *rapid.T) (*program, string) {
 	if why != "" {
 		return nil, why
 	}
-	if out.Stats.MapIters > 0 {
+	if out.Stats.MapIters > 0 || out.Stats.MapOrders > 0 {
 		// Go map order decides which element fails first and how many
 		// instructions run: the run has no single "own result"
 		return nil, "excluded:iterates a map with >= 2 keys"
